@@ -1272,7 +1272,10 @@ fn singles_full(t: &Tree) -> Vec<(u32, Op)> {
 }
 fn singles_lenform(t: &Tree) -> Vec<(u32, Op)> {
     let mut v = Vec::new();
-    for i in 0..t.len() { v.push((i as u32, Op::LenIndef)); v.push((i as u32, Op::LenNonMin)) }
+    for i in 0..t.len() {
+        v.push((i as u32, Op::LenIndef)); v.push((i as u32, Op::LenNonMin));
+        if mutate::is_string_tag(t.nodes[i].tag) { v.push((i as u32, Op::Cons(mutate::CONS_SPLIT_MID))) }
+    }
     v
 }
 
@@ -2018,7 +2021,7 @@ fn main() {
     }
     deaths.retain(|d| d.task.sp != SpaceId::SelfTest);
 
-    let menu = "tag := each of 16 tags; length := {-1, +1, 0, indefinite with/without end-of-contents, non-minimal long form, 84 FFFFFFFF}; content := {one octet short, empty, one zero octet, all FF, first/last octet +-1}; delete; duplicate; swap with next sibling; splice in the first node of every other tag of the same object; wrap in 64 (thorough, seeds <= 4 KiB: also 20000 indefinite / 3000 definite) levels of constructed nesting";
+    let menu = "for primitive string-typed nodes (OCTET/BIT STRING, character strings, times, primitive context tags) the 24 BER constructed-string spellings (2 parts cut after the first / in the middle / before the last octet; last part twice; last octet dropped; extra part of 1/4/64 octets; empty part; nested depth 2; wrong inner tag; single part; each with definite and indefinite outer length); tag := each of 16 tags; length := {-1, +1, 0, indefinite with/without end-of-contents, non-minimal long form, 84 FFFFFFFF}; content := {one octet short, empty, one zero octet, all FF, first/last octet +-1}; delete; duplicate; swap with next sibling; splice in the first node of every other tag of the same object; wrap in 64 (thorough, seeds <= 4 KiB: also 20000 indefinite / 3000 definite) levels of constructed nesting";
     let sp0 = finish_space(SpaceId::B0, "bound0.seeds",
         "every seed (files of a decodable type under test-data, base64 payloads of serde-compat/*.json, freshly built objects of every type) into each entry point of its type, strict and relaxed; full accessor sweep after every successful decode; non-trivial = (seed, entry point) pairs that decode",
         true, "all seeds", None);
@@ -2031,11 +2034,11 @@ fn main() {
         true, "deviation bound 1 on all seeds", Some(b1_nt));
     if thorough {
         let sp = finish_space(SpaceId::B2P, "bound2.pairs_reduced_menu",
-            "one seed per type (the freshly built one with the fewest TLV nodes; the repository's router-csr.der for BGPsec CSRs) x every entry point of the type x all unordered pairs of single deviations at two different nodes from a reduced menu (tag := {02,04,30,05}; length -1, +1, 0, indefinite, non-minimal; content one short, empty, all FF, first+1, last-1, one zero octet; delete; duplicate; swap); an operator on an ancestor acts on the already rewritten descendant; non-trivial = pairs whose result differs from the seed and from both single deviations (measured by hashing; byte-identical results of different pairs are not merged)",
+            "one seed per type (the freshly built one with the fewest TLV nodes; the repository's router-csr.der for BGPsec CSRs) x every entry point of the type x all unordered pairs of single deviations at two different nodes from a reduced menu (tag := {02,04,30,05}; length -1, +1, 0, indefinite, non-minimal; constructed-string split-mid and last-part-twice; content one short, empty, all FF, first+1, last-1, one zero octet; delete; duplicate; swap); an operator on an ancestor acts on the already rewritten descendant; non-trivial = pairs whose result differs from the seed and from both single deviations (measured by hashing; byte-identical results of different pairs are not merged)",
             true, "deviation bound 2, reduced menu, one seed per type", None);
         sp.set("seeds", json!(b2_seeds.iter().map(|&i| env.seeds[i].name.clone()).collect::<Vec<_>>()));
         finish_space(SpaceId::B2L, "bound2.length_form_x_any",
-            "same seeds x entry points: (indefinite or non-minimal length at any node) x (any operator of the full bound-1 menu at any other node); non-trivial as for the pairs space",
+            "same seeds x entry points: (indefinite or non-minimal length at any node, or the split-mid constructed spelling of a string node) x (any operator of the full bound-1 menu at any other node); non-trivial as for the pairs space",
             true, "length-form x full menu, one seed per type", None);
     }
     finish_space(SpaceId::Rs, "bound1.resigned",
